@@ -155,27 +155,64 @@ def gen(r, d, tie_prone=False, cx=False):
     return ('raise', r.choice(['O', 'T', 'C'] if cx else ['O', 'T']))
 
 
-def gen_group(r, d):
-    """timeout programs with task groups in them, on the grid: program times multiples of 4,
-    member durations = 2 mod 4 (a member never finishes by itself at the instant of a deadline),
-    reactions multiples of 4, external cancels odd"""
+GU = 512        # time unit of the group programs
+
+
+def suspends_first(p):
+    """True: `p` suspends before it can raise; False: it raises first; None: it does neither"""
+    t = p[0]
+    if t == 'sleep':
+        return True
+    if t == 'raise':
+        return False
+    if t == 'seq':
+        a = suspends_first(p[1])
+        return a if a is not None else suspends_first(p[2])
+    if t == 'try':
+        return suspends_first(p[2])
+    if t == 'block':
+        return suspends_first(p[4])
+    if t == 'group':
+        a = suspends_first(p[2])
+        return a if a is not None else (True if p[1] else None)
+    return None
+
+
+def gen_group(r, d, top=True, _ctr=None):
+    """timeout programs with task groups in them.  Grid: everything the program itself does is a
+    multiple of GU; member j (at most 4 per program) sleeps k*GU + 2**(2j+1) and dies
+    k'*GU + 2**(2j+2) after being cancelled (or at once) - so no member ever finishes, by itself
+    or cancelled, at the instant of a deadline or of another member; external cancels are odd."""
+    if _ctr is None:
+        _ctr = [0]
     k = r.random()
     if d <= 0 or k < 0.2:
-        return ('sleep', r.choice([4, 8, 12, 16, 40]))
+        return ('sleep', GU * r.choice([1, 2, 3, 4, 10]))
     if k < 0.35:
-        return ('seq', gen_group(r, d - 1), gen_group(r, d - 1))
-    if k < 0.6:
+        return ('seq', gen_group(r, d - 1, False, _ctr), gen_group(r, d - 1, False, _ctr))
+    if k < 0.6 or (k < 0.95 and _ctr[0] >= 4):
         rel = r.random() < 0.7
-        t = r.choice([4, 8, 12, 16, 28, 0, -4]) if rel else r.choice([4, 8, 12, 20, 32, 48, 0])
-        return ('block', r.random() < 0.4, rel, t, gen_group(r, d - 1), r.choice([0, 0, 0, 1]))
+        t = GU * (r.choice([1, 2, 3, 4, 7, 0, -1]) if rel else r.choice([1, 2, 3, 5, 8, 12, 0]))
+        return ('block', r.random() < 0.4, rel, t, gen_group(r, d - 1, False, _ctr),
+                r.choice([0, 0, 0, 1]))
     if k < 0.7:
         cs = sorted(set(r.sample(['T', 'O', 'U'], r.randint(1, 2))))
-        return ('try', cs, gen_group(r, d - 1),
-                gen_group(r, d - 1) if r.random() < 0.5 else ('skip',))
+        return ('try', cs, gen_group(r, d - 1, False, _ctr),
+                gen_group(r, d - 1, False, _ctr) if r.random() < 0.5 else ('skip',))
     if k < 0.95:
-        ms = tuple((r.choice([2, 6, 10, 18, 42]), r.choice([0, 0, 4, 8]))
-                   for _ in range(r.randint(1, 3)))
-        return ('group', ms, gen_group(r, d - 1) if r.random() < 0.7 else ('skip',))
+        ms = []
+        for _ in range(r.randint(1, min(3, 4 - _ctr[0]))):
+            j = _ctr[0]
+            _ctr[0] += 1
+            react = r.choice([0, 0, 1, 2])
+            ms.append((GU * r.choice([0, 1, 2, 4, 10]) + 2 ** (2 * j + 1),
+                       GU * react + 2 ** (2 * j + 2) if react else 0))
+        body = gen_group(r, d - 1, False, _ctr) if r.random() < 0.8 else ('skip',)
+        if suspends_first(body) is False:
+            # a member cancelled before its very first step dies at once whatever its reaction
+            # time (it never entered its own try block): let the members get going first
+            body = ('seq', ('sleep', GU), body)
+        return ('group', tuple(ms), body)
     return ('raise', r.choice(['O', 'T']))
 
 
@@ -440,6 +477,7 @@ class Impl:
                 dl = getattr(me, '_deadlines', None)
                 obs['dl'] = len(dl) if isinstance(dl, list) else (0 if nblocks == 0 else '?')
                 obs['evs'] = evs
+                obs['whens'] = sorted({int(x['when']) for x in timers.recs})
                 obs['left_groups'] = [e for e in evs if e['kind'] == 'group']
                 obs['stray'] = None
                 if follow_on:
